@@ -61,8 +61,8 @@ def _replay_batched(cases: list, d: Path, batch: int = 32000) -> list[Path]:
 # ===========================================================================
 # C07
 C07_DISAGREEMENT = "C07.Timeline"  # equality with the transcription; the property clauses are the other ones
-C07_INV = ["Aligned", "Consecutive", "FirstTickWindow", "SameForAllSeries", "CaughtUp", "LoopAliveOrKnown", "TimerTracksWindow", "NeverEarly", "TypeOK"]
-C07_ACTIONS = ["CreateStep", "AddStep", "PassStep", "FireStep", "ResampleStep", "FinishStep", "RestartStep"]
+C07_INV = ["Aligned", "Consecutive", "FirstTickWindow", "SameForAllSeries", "CaughtUp", "TimerTracksWindow", "NeverEarly", "TypeOK"]
+C07_ACTIONS = ["CreateStep", "AddStep", "PassStep", "FireStep", "ResampleStep", "FinishStep"]
 
 C07_SCOPES = {
     "quick": dict(
@@ -138,11 +138,6 @@ def replay_timeline(case: dict, cfg: dict) -> dict:
                 loop.jump_to(loop.time() + TICK_S)  # the clock moves, the loop does not run
             elif a in ("fire", "resample", "finish"):
                 loop.run_until_idle()
-            elif a == "restart":
-                # the client starts resample() again, as ComponentMetricsResamplingActor._run does
-                if task.done():
-                    task = loop.create_task(res.resample())
-                loop.run_until_idle()
             else:
                 raise ValueError(a)
             err = ""
@@ -150,6 +145,11 @@ def replay_timeline(case: dict, cfg: dict) -> dict:
                 ex_ = task.exception() if not task.cancelled() else None
                 err = type(ex_).__name__ if ex_ is not None else ("cancelled" if task.cancelled() else "returned")
             out.append(dict(s, obs=dict(rec=[list(rec[k]) for k in range(1, ns + 1)], dead=bool(task.done()), err=err, pending=pending[0], jn=[seen_by_1.get(k, NONE) for k in range(1, ns + 1)])))
+            if task.done():
+                # observed and recorded; start resample() again (what ComponentMetricsResamplingActor._run
+                # does) so that the rest of the behaviour is still checked
+                task = loop.create_task(res.resample())
+                loop.run_until_idle()
     return dict(id=case["id"], steps=out)
 
 
@@ -217,7 +217,7 @@ def run_c07(rep: Report, tier: str, work: Path) -> None:
             if s["a"] == "add" and seen_tick:
                 ex["series_added_while_running"] += 1
                 break
-        ex["series_added_while_sinks_pending"] += any(s["a"] == "restart" for s in st)
+        ex["series_added_while_sinks_pending"] += any(s["a"] == "finish" and s["grown"] for s in st)
         al, c0 = st[0]["align"], st[0]["c"]
         ex["align_none"] += al == NONE
         ex["align_future"] += al != NONE and al > c0
